@@ -70,7 +70,16 @@ def oracle(ci, cls, p, left, rng, rep):
     if len(steps) > LIMIT:
         if is_conn:
             return "normalisation of a connected diagram yields more than %d steps" % LIMIT
-        return None
+        # disconnected and looping: the loop must be REPORTED as NotImplementedError
+        try:
+            monoidal.Diagram.normal_form(d, normalizer=ci.bounded(monoidal.Diagram.normalize), left=left)
+        except NotImplementedError:
+            return None
+        except ci.OutOfFuel:
+            return "normal_form rewrites forever without raising NotImplementedError"
+        except Exception as exc:   # noqa
+            return "normal_form raised %s" % type(exc).__name__
+        return "normal_form returned although normalize does not terminate"
     prev = d
     for k, s in enumerate(steps):
         bad = rescan(ci, s)
